@@ -9,6 +9,7 @@ package forwarder
 import (
 	"net"
 	"slices"
+	"unicode/utf8"
 
 	"github.com/prometheus/client_golang/prometheus"
 	"github.com/prometheus/client_golang/prometheus/promauto"
@@ -73,6 +74,10 @@ func (m *dialerMetrics) close(addr string) {
 func addr2Host(addr string) string {
 	host, _, err := net.SplitHostPort(addr)
 	if err != nil {
+		return "unknown"
+	}
+	// A label value must be valid UTF-8, the address comes from the request target of a client.
+	if !utf8.ValidString(host) {
 		return "unknown"
 	}
 
